@@ -311,13 +311,17 @@ impl Runtime {
         let mut service2 = service1.clone();
         let mut service3 = service1.clone();
 
+        // Subscribe before the guard below is evaluated: a receiver created after the
+        // termination request was sent would never see it.
+        let mut shutdown1 = self.shutdown.0.subscribe();
+        let mut shutdown2 = self.shutdown.0.subscribe();
+        let mut shutdown3 = self.shutdown.0.subscribe();
+
         #[cfg(feature = "verif")]
         self.verif_point("guard");
         if self.shutdown.1.is_empty() {
             #[cfg(feature = "verif")]
             self.verif_point("spawn");
-            let mut shutdown = self.shutdown.0.subscribe();
-
             self.spawn(async move {
                 service1.setup().await;
 
@@ -327,7 +331,7 @@ impl Runtime {
                             service1.recv(signal1_tx.clone()).await;
                         }
                     } => {}
-                    _ = shutdown.recv() => {}
+                    _ = shutdown1.recv() => {}
                 }
 
                 service1.teardown().await;
@@ -335,8 +339,6 @@ impl Runtime {
 
             #[cfg(feature = "verif")]
             self.verif_point("spawn2");
-            let mut shutdown = self.shutdown.0.subscribe();
-
             self.spawn(async move {
                 tokio::select! {
                     _ = async {
@@ -345,14 +347,12 @@ impl Runtime {
                             tokio::time::sleep(duration).await;
                         }
                     } => {}
-                    _ = shutdown.recv() => {}
+                    _ = shutdown2.recv() => {}
                 }
             });
 
             #[cfg(feature = "verif")]
             self.verif_point("spawn3");
-            let mut shutdown = self.shutdown.0.subscribe();
-
             self.spawn(async move {
                 tokio::select! {
                     _ = async {
@@ -370,7 +370,7 @@ impl Runtime {
                             }
                         }
                     } => {}
-                    _ = shutdown.recv() => {}
+                    _ = shutdown3.recv() => {}
                 }
             });
         }
